@@ -1,9 +1,10 @@
 ----------------------------- MODULE Gen_CPR04 -----------------------------
 (* Step G for C04: TLC walks the point families of Gen_CPRPoints and prints *)
 (* one vector per point,                                                    *)
-(*   [family, index, L, M, YZ_0, XZ_0, YZ_1, XZ_1, SameBand, NearThreshold] *)
+(*   [family, index, L, M, YZ_0, XZ_0, YZ_1, XZ_1, SameBand, NearThreshold, *)
+(*    NL(Rlat_0), NL(Rlat_1)]                                               *)
 (* i.e. the true position on the lattice and the even/odd airborne CPR      *)
-(* fields CPR.tla encodes it to.  The last two are for coverage counts only *)
+(* fields CPR.tla encodes it to.  The last four are for coverage counts only *)
 (* (the trace specification recomputes everything from L and M).            *)
 (* GEN_SLICE / GEN_NSLICES split the output over parallel TLC processes.    *)
 EXTENDS Gen_CPRPoints, Json
@@ -17,7 +18,8 @@ Vec(f, x) ==
       L == p[1]
       M == p[2]
   IN  << f, x, L, M, YZ("air", 0, L), XZ("air", 0, L, M), YZ("air", 1, L), XZ("air", 1, L, M),
-         IF SameBand(L) THEN 1 ELSE 0, IF NearThresholdPair(L) THEN 1 ELSE 0 >>
+         IF SameBand(L) THEN 1 ELSE 0, IF NearThresholdPair(L) THEN 1 ELSE 0,
+         NLat("air", 0, L), NLat("air", 1, L) >>
 
 Emit(f, x) == IF Valid(f, x) /\ x % NSlices = Slice THEN PrintT(ToJson(Vec(f, x))) ELSE TRUE
 
